@@ -102,6 +102,13 @@ class FSim(DSim):
             return
         DSim.do(self, act)
 
+    # ---- what harness.c08.CloseExplore.violations reads from a mailbox-level Sim
+    world = property(lambda self: self.w.mw)
+    cl = property(lambda self: [s.c for s in self.w.sides])
+    adv = frozenset()
+    wrong_code = False
+    api = property(lambda self: [dict(closed=self.stopped_req[i]) for i in (0, 1)])
+
     def peer_versions_seen(self):
         return any(e[0] == "versions" for e in self.w.sides[0].c.ev)
 
